@@ -183,7 +183,33 @@ def run(chk: Check) -> None:
             if isinstance(n, ast.Attribute) and n.attr in INDEXES:
                 uses += 1
                 par = getattr(n, "_parent", None)
-                read_only = isinstance(par, ast.Attribute) and par.attr == "get"
+
+                def _reads(x: ast.AST, depth: int = 0) -> bool:
+                    """the expression x (the index, or a local bound to it) is only looked at"""
+                    px = getattr(x, "_parent", None)
+                    if isinstance(px, ast.Attribute) and px.attr in ("get", "keys", "values", "items"):
+                        return True
+                    if isinstance(px, (ast.If, ast.While, ast.IfExp)) and px.test is x:
+                        return True
+                    if isinstance(px, ast.UnaryOp) and isinstance(px.op, ast.Not):
+                        return True
+                    if isinstance(px, ast.BoolOp):
+                        return _reads(px, depth)
+                    if isinstance(px, ast.Compare) and len(px.ops) == 1 and isinstance(px.ops[0], (ast.In, ast.NotIn)) \
+                            and px.comparators[0] is x:
+                        return True
+                    if isinstance(px, ast.Call) and attr_path(px.func) == ("len",) and len(px.args) == 1:
+                        return True
+                    if isinstance(px, (ast.Assign, ast.AnnAssign)) and px.value is x and depth == 0:
+                        tg = px.targets[0] if isinstance(px, ast.Assign) and len(px.targets) == 1 else getattr(px, "target", None)
+                        if isinstance(tg, ast.Name):
+                            stores_ = [m for m in walk_no_nested(f.node) if isinstance(m, ast.Name) and m.id == tg.id
+                                       and not isinstance(m.ctx, ast.Load)]
+                            loads_ = [m for m in walk_no_nested(f.node) if isinstance(m, ast.Name) and m.id == tg.id
+                                      and isinstance(m.ctx, ast.Load)]
+                            return len(stores_) == 1 and all(_reads(m, 1) for m in loads_)
+                    return False
+                read_only = _reads(n)
                 allowed = f.cls is mod and f.name in ("__init__", "_index_add", "_index_discard")
                 chk.ob("R10.2", "%s:use(%s)" % (f.qualname, n.attr), allowed or read_only, f.loc(n),
                        "%s touches %s other than by a read through .get: only Module.__init__, "
